@@ -487,9 +487,22 @@ theorem parse_ext : ∀ f, ExtAt f
 /-- what may follow a property: not `as`, `{` or `within` (the three tokens an event or pattern would still take) -/
 def stopsProp (more : List Tok) : Prop := match more with | t :: _ => isKw t "as" = false ∧ isSym t "{" = false ∧ isKw t "within" = false | [] => True
 
+/-- what may follow an event that used up its text: anything but an alias or a predicate -/
+def stopsEv (more : List Tok) : Prop := match more with | t :: _ => isKw t "as" = false ∧ isSym t "{" = false | [] => True
+
+theorem stopsProp_ev {more : List Tok} (h : stopsProp more) : stopsEv more := by
+  cases more with
+  | nil => trivial
+  | cons t _ => exact ⟨h.1, h.2.1⟩
+
 /-- a parser step that reads the same phrase when more input follows; an empty remainder asks the following input not to continue it -/
-def ExtP {α : Type} (p : List Tok → PR (α × List Tok)) : Prop :=
-  ∀ ts r rest more, p ts = .ok (r, rest) → (rest = [] → stopsProp more) → p (ts ++ more) = .ok (r, rest ++ more)
+def ExtPF {α : Type} (F : List Tok → Prop) (p : List Tok → PR (α × List Tok)) : Prop :=
+  ∀ ts r rest more, p ts = .ok (r, rest) → (rest = [] → F more) → p (ts ++ more) = .ok (r, rest ++ more)
+
+abbrev ExtP {α : Type} (p : List Tok → PR (α × List Tok)) : Prop := ExtPF stopsProp p
+
+theorem ExtPF.mono {α : Type} {F F' : List Tok → Prop} {p : List Tok → PR (α × List Tok)} (hF : ∀ m, F' m → F m) (h : ExtPF F p) : ExtPF F' p :=
+  fun ts r rest more hp hs => h ts r rest more hp (fun hr => hF _ (hs hr))
 
 theorem parseFuel_le (ts more : List Tok) : parseFuel ts ≤ parseFuel (ts ++ more) := by
   simp only [parseFuel, List.length_append]; omega
@@ -519,7 +532,7 @@ theorem pPredicate_ext (ts : List Tok) (r : Raw) (rest more : List Tok) (h : pPr
         · cases h2
     · cases h
 
-theorem pEventBody_ext (name : String) (al : Option String) : ExtP (pEventBody name al) := by
+theorem pEventBody_extE (name : String) (al : Option String) : ExtPF stopsEv (pEventBody name al) := by
   intro ts r rest more h hs
   unfold pEventBody at h ⊢
   cases ts with
@@ -530,8 +543,8 @@ theorem pEventBody_ext (name : String) (al : Option String) : ExtP (pEventBody n
     | nil => rfl
     | cons m ms =>
       have := hs rfl
-      simp only [stopsProp] at this
-      simp [this.2.1]
+      simp only [stopsEv] at this
+      simp [this.2]
   | cons b y =>
     simp only [List.cons_append] at h ⊢
     split at h
@@ -547,7 +560,9 @@ theorem pEventBody_ext (name : String) (al : Option String) : ExtP (pEventBody n
       obtain ⟨rfl, rfl⟩ := ok_pair_inj h
       rfl
 
-theorem pEvent_ext : ExtP pEvent := by
+theorem pEventBody_ext (name : String) (al : Option String) : ExtP (pEventBody name al) := (pEventBody_extE name al).mono (fun _ => stopsProp_ev)
+
+theorem pEvent_extE : ExtPF stopsEv pEvent := by
   intro ts r rest more h hs
   rw [pEvent_eq] at h ⊢
   unfold pEvent' at h ⊢
@@ -561,7 +576,7 @@ theorem pEvent_ext : ExtP pEvent := by
       cases r0 with
       | nil =>
         simp only [List.nil_append] at h ⊢
-        have hb := pEventBody_ext n.text none [] r rest more h hs
+        have hb := pEventBody_extE n.text none [] r rest more h hs
         simp only [List.nil_append] at hb
         cases more with
         | nil => simpa using h
@@ -569,7 +584,7 @@ theorem pEvent_ext : ExtP pEvent := by
           have hrest : rest = [] := by
             unfold pEventBody at h; obtain ⟨_, rfl⟩ := ok_pair_inj h; rfl
           have := hs hrest
-          simp only [stopsProp] at this
+          simp only [stopsEv] at this
           simp only [this.1]
           exact hb
       | cons a r1 =>
@@ -584,13 +599,15 @@ theorem pEvent_ext : ExtP pEvent := by
             split at h
             · rename_i hv
               simp only [hv, if_true]
-              exact pEventBody_ext _ _ r2 r rest more h hs
+              exact pEventBody_extE _ _ r2 r rest more h hs
             · cases h
         · rename_i ha
           simp only [ha]
-          have := pEventBody_ext n.text none (a :: r1) r rest more h hs
+          have := pEventBody_extE n.text none (a :: r1) r rest more h hs
           simpa using this
     · cases h
+
+theorem pEvent_ext : ExtP pEvent := pEvent_extE.mono (fun _ => stopsProp_ev)
 
 end Hpl
 
@@ -625,7 +642,7 @@ theorem pDisjTail_ext : ∀ (f : Nat) (acc : List RawSimple) (ts : List Tok) (r 
               rfl
           · cases h2
 
-theorem pAnyEvent_ext : ExtP pAnyEvent := by
+theorem pAnyEvent_extE : ExtPF stopsEv pAnyEvent := by
   intro ts r rest more h hs
   unfold pAnyEvent at h ⊢
   cases ts with
@@ -640,9 +657,11 @@ theorem pAnyEvent_ext : ExtP pAnyEvent := by
       simp only [ht]
       obtain ⟨e, r', h1, h2⟩ := bind_ok_pair h
       obtain ⟨rfl, rfl⟩ := pure_pair_inj h2
-      have := pEvent_ext (t :: r0) e r' more h1 hs
+      have := pEvent_extE (t :: r0) e r' more h1 hs
       simp only [List.cons_append] at this
       rw [this]; rfl
+
+theorem pAnyEvent_ext : ExtP pAnyEvent := pAnyEvent_extE.mono (fun _ => stopsProp_ev)
 
 theorem pTimeBound_ext : ExtP pTimeBound := by
   intro ts r rest more h hs
